@@ -112,6 +112,15 @@ func (e *Engine) verifyFunc(fn *ssa.Function, ct *Contract, slice map[string]boo
 		if !ct.Trusted {
 			vc.frameObligations(fn, ct, te2, final, retReach)
 		}
+		if ct.PureResult != "" && len(results) > 0 {
+			reason := e.impure(fn, map[*ssa.Function]bool{})
+			goal := "true"
+			if reason != "" {
+				goal = "false"
+			}
+			vc.oblige("purity", shortFn(fn)+"#purity", pos, "result of "+fn.Name()+" depends only on its parameters"+map[bool]string{true: "", false: " — " + reason}[reason == ""], "true", goal, nil)
+			vc.assume(retReach, "(= "+results[0].t+" "+vc.namedTerm(ct.PureResult, fn.Signature, args, fn.Signature.Recv() != nil)+")")
+		}
 		if ct.PureVerdict != "" {
 			// the verdict is a function of the parameters: justified by the purity scan (effect check, no SMT)
 			reason := e.impure(fn, map[*ssa.Function]bool{})
